@@ -174,12 +174,13 @@ def _args(shape, a, b, c, n, flag):
 
 def builtin_equiv(a: int, b: int, c: int, n: int, flag: bool) -> None:
     """
-    pre: 0 <= n <= 3 and -3 <= a <= 3
+    pre: 0 <= n <= 5 and -3 <= a <= 3
     post: True
     """
     hlib.enter(locals())
     name, shape = hlib.PARAM["fn"], hlib.PARAM["shape"]
-    n = hlib.concrete(n, 0, 3)
+    hlib.assume(hlib.deep() or n <= 3)
+    n = hlib.concrete(n, 0, 5)
     args1 = _args(shape, a, b, c, n, flag)
     args2 = _args(shape, a, b, c, n, flag)
     try:
@@ -248,7 +249,8 @@ def template(a: int, b: int, c: int, si: int, n: int) -> None:
     """
     hlib.enter(locals())
     text = TEMPLATES[hlib.PARAM["t"]]
-    n = hlib.concrete(n, 0, 3)
+    hlib.assume(hlib.deep() or n <= 3)
+    n = hlib.concrete(n, 0, 5)
     s = ['', 'p', 'zz'][hlib.concrete(si, 0, 2)]
 
     def host():
